@@ -268,8 +268,11 @@ func TestC02(t *testing.T) {
 		for i := 0; i < r.N(40, 400); i++ {
 			overlappingIdenticalPuts(t, r, dir, i)
 		}
+		for i := 0; i < r.N(3, 20); i++ {
+			listsDuringChanges(t, r, dir, i)
+		}
 	}
-	r.Require("overlapping_identical_puts", "http_history_steps", "overlapping_puts", "histories", "restarts_inside_histories", "calls_failed_by_io_error", "calls_failed_by_audit_error", "failed_calls", "shape_delete_newest_version", "shape_put_after_newest_deleted", "shape_put_empty_after_newest_deleted",
+	r.Require("lists_during_changes", "overlapping_identical_puts", "http_history_steps", "overlapping_puts", "histories", "restarts_inside_histories", "calls_failed_by_io_error", "calls_failed_by_audit_error", "failed_calls", "shape_delete_newest_version", "shape_put_after_newest_deleted", "shape_put_empty_after_newest_deleted",
 		"shape_put_duplicate_of_newest", "shape_put_duplicate_of_older", "shape_activate_backwards", "shape_recreate_after_delete")
 	r.Rule("seeded random histories of 30-60 operations (all 9 operations, weighted towards put/activate/delete-version) over 3 ordinary names plus the empty and a reserved name, values from a 4-element pool incl. the empty value; oracle after every step. A case is distinct by (operation, precondition class of its name/version argument, model outcome class); named shapes are counted in 'observed'")
 }
@@ -476,4 +479,83 @@ func overlappingIdenticalPuts(t *testing.T, r *evid.Run, dir string, idx int) {
 		}
 	}
 	r.Distinct("overlapping identical puts")
+}
+
+// listsDuringChanges: List while another caller keeps changing the database. A listing is the state at ONE
+// instant: it never fails because a secret went away meanwhile, and it never shows the second secret of a pair
+// ahead of the first when every change touches the first one first.
+func listsDuringChanges(t *testing.T, r *evid.Run, dir string, idx int) {
+	r.Eval(1)
+	d, err := realdb.Open(filepath.Join(dir, fmt.Sprintf("ldc%d.db", idx)), realdb.DummyKey("c02ldc"))
+	if err != nil {
+		t.Error(err)
+		return
+	}
+	su := realdb.Super()
+	// (a reader with many rules: evaluating them per name is what makes a listing take its time)
+	var rules []refmodel.Rule
+	for k := 0; k < 12; k++ {
+		rules = append(rules, refmodel.Rule{Actions: []string{"info"}, Patterns: []string{fmt.Sprintf("no-such-%d/*", k)}})
+	}
+	rules = append(rules, refmodel.Rule{Actions: []string{"info"}, Patterns: []string{"*"}})
+	reader := realdb.Caller("lister@verif", rules)
+	nfill := []int{40, 150, 300}[idx%3]
+	for k := 0; k < nfill; k++ {
+		d.Put(su, fmt.Sprintf("mm/fill-%03d", k), []byte("x"))
+	}
+	stop := make(chan struct{})
+	done := make(chan struct{})
+	go func() {
+		defer close(done)
+		for n := 0; ; n++ {
+			select {
+			case <-stop:
+				return
+			default:
+			}
+			// first, then last; taken away in the opposite order
+			d.Put(su, "aa/first", []byte(fmt.Sprint("v", n)))
+			d.Put(su, "zz/last", []byte(fmt.Sprint("v", n)))
+			if n%3 == 2 {
+				d.Delete(su, "zz/last")
+				d.Delete(su, "aa/first")
+			}
+		}
+	}()
+	for k, n := 0, r.N(150, 1500); k < n; k++ {
+		infos, err := d.List(reader)
+		r.Count("lists_during_changes", 1)
+		if err != nil {
+			r.Violation("list-fails-during-changes", idx, fmt.Sprintf("case %d: List call %d over %d secrets failed with %v while another caller was creating and deleting secrets; a listing is the state at one instant and has no reason to fail", idx, k, nfill+2, err), nil)
+			break
+		}
+		var first, last *int
+		fill := 0
+		for _, in := range infos {
+			nv := len(in.Versions)
+			switch {
+			case in.Name == "aa/first":
+				first = &nv
+			case in.Name == "zz/last":
+				last = &nv
+			default:
+				fill++
+			}
+		}
+		if fill != nfill {
+			r.Violation("list-differs", idx, fmt.Sprintf("case %d: List call %d shows %d of the %d untouched secrets", idx, k, fill, nfill), nil)
+			break
+		}
+		if last != nil && (first == nil || *first < *last) {
+			f := -1
+			if first != nil {
+				f = *first
+			}
+			r.Violation("list-not-one-instant", idx, fmt.Sprintf("case %d: List call %d shows zz/last with %d versions and aa/first with %d (-1 = absent); every change touches aa/first before zz/last (and removes zz/last first), so at no instant is zz/last ahead", idx, k, *last, f), nil)
+			break
+		}
+	}
+	close(stop)
+	<-done
+	r.Distinct("lists during changes")
 }
